@@ -1067,6 +1067,95 @@ def check_lc_unpack_bits(ctx, bp):
         ctx.count('lc-unpack-bits:unclaimed-observation', len(obs))
 
 
+
+# ----------------------------------------------------------------------------------------- through the reader
+
+READER_KEY = 'reader-decoding'
+READER_PPDS = [1728.0, (1728 ** 3) ** (1 / 3), 100.00000000000001, 64.0, (6912 ** 3) ** (1 / 3), 99.99999999999999]
+READER_BITS = [True, ['lagr_pos'], ['lagr_idx', 'density'], 'tagged', ['pid', 'lagr_pos'], False]
+
+
+def reader_cases(ctx, n):
+    rng = np.random.default_rng([ctx.seed, 404])
+    out = []
+    for i in range(n):
+        out.append(dict(entry='CompaSOHaloCatalog', seed=int(rng.integers(0, 2 ** 31)), ppd=READER_PPDS[i % len(READER_PPDS)],
+                        box=[2000.0, 1100.0, 500.0, 1234.5][int(rng.integers(0, 4))], cleaned=bool(i % 3 != 2),
+                        AB=['AB', 'A', 'B', 'AB'][int(rng.integers(0, 4))],
+                        unpack_bits=READER_BITS[int(rng.integers(0, len(READER_BITS)))]))
+    return out
+
+
+def check_reader_case(ctx, bp, case):
+    """The columns `CompaSOHaloCatalog` hands to the user must be the documented decoding of the raw words of the very same
+    load done in passthrough mode (`rvint`, `packedpid` columns), with the box size of the header and the *integer*
+    particles-per-dimension the header's `ppd` spells (NP**(1/3) of a perfect cube is usually a hair below the integer)."""
+    import shutil
+    import tempfile
+    import catgen
+    d = tempfile.mkdtemp(dir=ctx.tmpdir())
+    try:
+        rng = np.random.default_rng([case['seed'], 5])
+        cat = catgen.make_catalog(d, rng, nslabs=2, nhalos=(2, 5), cleaned=True, box=case['box'], ppd=case['ppd'])
+        sub = {k: True for k in case['AB']}
+        ub = case['unpack_bits']
+        ctx.case(case)
+        ctx.count('reader:ppd=%r' % case['ppd'])
+        raw = catgen.load(cat, subsamples=dict(sub, rvint=True, packedpid=True), passthrough=True, cleaned=case['cleaned'], fields='all')
+        dec = catgen.load(cat, subsamples=dict(sub, rv=True, pid=True), unpack_bits=ub, cleaned=case['cleaned'], fields=['N'])
+        rv = np.asarray(raw.subsamples['rvint']).astype(np.int64)
+        w = np.asarray(raw.subsamples['packedpid']).astype(np.uint64)
+        S = dec.subsamples
+        box, P = Fraction(case['box']), int(round(case['ppd']))
+        want = ['pid', 'lagr_pos', 'tagged', 'density', 'lagr_idx'] if ub is True else ['pid'] if ub is False else [ub] if isinstance(ub, str) else list(ub)
+        missing = [c for c in ['pos', 'vel'] + want if c not in S.colnames]
+        if missing or len(S) != len(w):
+            ctx.fail('reader: decoded subsample columns missing / wrong length', case, dict(cols=S.colnames, n=len(S)),
+                     dict(cols=['pos', 'vel'] + want, n=len(w)), key=READER_KEY)
+            return
+        p20, v12 = oracle_rv_int(rv)
+        o = oracle_aux(w)
+        bf = float(box)
+        # positions: p20 * Box / 10^6 within 2 float32 ulp; velocities: v12 * 6000/2048, exact in float32
+        epos = p20.astype(np.float64) * (bf / 1e6)
+        gpos = np.asarray(S['pos'])
+        if gpos.dtype != np.float32 or np.any(np.abs(gpos.astype(np.float64) - epos) > 2 * np.spacing(np.abs(epos).astype(np.float32)).astype(np.float64) + 1e-30):
+            k = int(np.argmax(np.abs(gpos.astype(np.float64) - epos).max(axis=1))) if len(w) else 0
+            ctx.fail('reader: pos is not (signed upper 20 bits) * BoxSize / 10^6', dict(case, row=k), gpos[k].tolist() if len(w) else str(gpos.dtype),
+                     epos[k].tolist() if len(w) else 'float32', key=READER_KEY)
+        evel = v12.astype(np.float64) * (6000.0 / 2048.0)
+        gvel = np.asarray(S['vel'])
+        if gvel.dtype != np.float32 or not np.array_equal(gvel.astype(np.float64), evel):
+            k = int(np.argmax(np.abs(gvel.astype(np.float64) - evel).max(axis=1))) if len(w) else 0
+            ctx.fail('reader: vel is not (lower 12 bits - 2048) * 6000 / 2048', dict(case, row=k), gvel[k].tolist() if len(w) else str(gvel.dtype),
+                     evel[k].tolist() if len(w) else 'float32', key=READER_KEY)
+        for f in want:
+            g = np.asarray(S[f])
+            if f == 'lagr_pos':
+                j = np.stack([o['ix'], o['iy'], o['iz']], axis=1)
+                ex = np.array([[float(Fraction(int(x)) * box / P - box / 2) for x in r] for r in j], dtype=np.float64).reshape(-1, 3)
+                M = np.maximum(j.astype(np.float64) * bf / P, bf / 2)
+                tol = 3 * np.spacing(M.astype(np.float32)).astype(np.float64)
+                bad = np.abs(g.astype(np.float64) - ex) > tol
+                if np.any(bad):
+                    k = int(np.argmax(bad.any(axis=1)))
+                    ctx.fail('reader: lagr_pos is not index * BoxSize / ppd - BoxSize / 2 for the integer ppd of the header', dict(case, row=k, word=int(w[k])),
+                             g[k].tolist(), ex[k].tolist(), key=READER_KEY)
+            else:
+                ex = np.stack([o['ix'], o['iy'], o['iz']], axis=1) if f == 'lagr_idx' else o[f]
+                if g.shape != ex.shape or not np.array_equal(g.astype(np.int64), ex):
+                    bad = (g.astype(np.int64) != ex) if g.shape == ex.shape else None
+                    k = int(np.argmax(bad.reshape(len(w), -1).any(axis=1))) if bad is not None and len(w) else 0
+                    ctx.fail('reader: %s is not the documented field of the packed word' % f, dict(case, row=k, word=int(w[k]) if len(w) else None),
+                             np.asarray(g[k]).tolist() if len(w) else list(g.shape), np.asarray(ex[k]).tolist() if len(w) else list(ex.shape), key=READER_KEY)
+    finally:
+        shutil.rmtree(d, ignore_errors=True)
+
+
+def check_reader(ctx, bp, n):
+    for case in reader_cases(ctx, n):
+        check_reader_case(ctx, bp, case)
+
 # ----------------------------------------------------------------------------------------- entry points
 
 def extract(ctx):
@@ -1129,6 +1218,7 @@ def run(ctx):
     check_pid_kernel(ctx, bp, M)
     check_empty(ctx, bp, M)
     check_lc_unpack_bits(ctx, bp)
+    check_reader(ctx, bp, ctx.pick(12, 60))
     if not ctx.quick:
         exhaustive_rvint(ctx, bp, M)
 
@@ -1146,6 +1236,7 @@ def intensify(ctx):
     check_rv_bulk(ctx, bp, M, words, RV_BOXES_T[:5], 'intensify-rv')
     check_aux_bulk(ctx, bp, M, aux_sweep_words(ctx, 4), PID_BOXPPD_T[:6], 'intensify-aux')
     check_roundtrip(ctx, bp, M)
+    check_reader(ctx, bp, 36)
 
 
 def replay(ctx, doc):
@@ -1154,7 +1245,9 @@ def replay(ctx, doc):
     ctx.distinct = CountingSet(ctx.distinct)
     c = doc['failure']['case'] if 'failure' in doc else doc
     print('case:', json.dumps(c))
-    if 'word' in c and str(c.get('entry', '')).startswith('unpack_rvint'):
+    if c.get('entry') == 'CompaSOHaloCatalog':
+        check_reader_case(ctx, bp, {k: v for k, v in c.items() if k not in ('row', 'word')})
+    elif 'word' in c and str(c.get('entry', '')).startswith('unpack_rvint'):
         w = np.array([c['word']] * 3, dtype=np.int64)
         print('model rvint:', M.rvint(w)[0][0], M.rvint(w)[1][0], 'oracle:', oracle_rv_py(c['word']))
         for dt in (np.float32, np.float64):
